@@ -1,9 +1,10 @@
 // C49: mem_hdr (in-memory object data) returns exactly what was written.
 // Real mem_hdr/mem_node/Splay code. Reference = a sparse byte map (present[], val[]).
-// c49_window / c49_page: offsets are base + d with ONE symbolic 64-bit base and case-split small d, so that the layout
-//   (adjacent / gap / order of arrival / node-full boundary) is enumerated by the solver while absolute offsets stay symbolic;
-//   data bytes of small writes are symbolic. After every operation the store is probed byte by byte, at the end every range of
-//   the window is queried (hasContigousContentRange) and read (copy).
+// c49_window / c49_page / c49_tree: offsets are base + d with a representative base (0, 1 or 2^40+7: the code looks only at
+//   offset differences, offset > 0 and offset >= 0; a fully symbolic 64-bit base costs ~100x in solver time) and case-split
+//   small d, so that the layout (adjacent / gap / order of arrival / node-full boundary / splay shape) is enumerated by the
+//   solver; data bytes of small writes are symbolic. After every operation the store is probed byte by byte, at the end every
+//   range of the window is queried (hasContigousContentRange) and read (copy).
 // c49_sparse: every write offset, the release offset and the probe/read offset are independent symbolic values in [0, 3 pages + 16].
 // Assumed (caller contract of stmem.cc): writes do not overlap data that is present; copy() is asked for a non-empty range whose
 //   first byte is present (mem_hdr::copy() fatal_dump()s otherwise: "we shouldn't ever ask for absent offsets").
@@ -95,18 +96,19 @@ struct World {
     }
 };
 
-
 #ifdef VF_THOROUGH
-#define NBASES 3
+#define NBASES 2
+#define PBASES 1
 #define WINDOW 5
 #define MAXLEN 2
 #define STEPS 4
 #define PSTEPS 3
-#define SITES 6
+#define SITES 5
 #define TREE_WRITES 5
-#define TREE_OPS 2
+#define TREE_OPS 3
 #else
 #define NBASES 2
+#define PBASES 1
 #define WINDOW 5
 #define MAXLEN 2
 #define STEPS 3
@@ -117,14 +119,14 @@ struct World {
 #endif
 
 // the base offset of the window: case-split over representatives (the code only looks at differences of offsets, at offset > 0 and >= 0)
-static int64_t anyBase() { static const int64_t bases[] = {0, 1, 3 * PAGE + 5, ((int64_t)1 << 40) + 7}; return bases[pick(NBASES, "base")]; }
+static int64_t anyBase(unsigned n) { static const int64_t bases[] = {((int64_t)1 << 40) + 7, 0}; return bases[pick(n, "base")]; }
 
-// small writes / releases inside a window of a few bytes at a symbolic base offset
+// small writes / releases inside a window of a few bytes
 extern "C" void c49_window(void)
 {
     vf_quiet();
     static World w;
-    w.base = anyBase(); w.w0 = 0; w.wn = WINDOW;
+    w.base = anyBase(NBASES); w.w0 = 0; w.wn = WINDOW;
     for (int i = 0; i < STEPS; ++i) w.step(MAXLEN);
     w.finalChecks();
     vf_reach("done");
@@ -137,7 +139,7 @@ extern "C" void c49_page(void)
 {
     vf_quiet();
     static World w;
-    w.base = anyBase(); w.big = true; w.w0 = PAGE - 3; w.wn = 8;
+    w.base = anyBase(PBASES); w.big = true; w.w0 = PAGE - 3; w.wn = 8;
     w.write(0, PAGE - 2 + (int)pick(5, "biglen"), false);
     w.probe();
     for (int i = 0; i < PSTEPS; ++i) w.step(2);
@@ -168,22 +170,23 @@ extern "C" void c49_tree(void)
 }
 
 // ---------------------------------------------------------------- independent symbolic offsets
-#ifdef VF_THOROUGH
-#define NW 3
-#define RD 5
-#else
 #define NW 2
+#ifdef VF_THOROUGH
+#define RD 5
+#define WLEN 3
+#else
 #define RD 3
+#define WLEN 2
 #endif
 extern "C" void c49_sparse(void)
 {
     vf_quiet();
     static mem_hdr hdr;
     const int64_t LIM = 3 * PAGE + 8;
-    int64_t off[NW]; int len[NW]; uint8_t data[NW][2];
+    int64_t off[NW]; int len[NW]; uint8_t data[NW][WLEN];
     for (int i = 0; i < NW; ++i) {
         off[i] = (int64_t)vf_nondet_u16("offset"); vf_assume(off[i] >= 0 && off[i] <= LIM);
-        len[i] = 1 + (int)pick(2, "len");
+        len[i] = 1 + (int)pick(WLEN, "len");
         for (int j = 0; j < i; ++j) vf_assume(off[i] + len[i] <= off[j] || off[j] + len[j] <= off[i]); // non-overlapping
         for (int k = 0; k < len[i]; ++k) data[i][k] = vf_nondet_u8("data");
         vf_assert(hdr.write(StoreIOBuffer(len[i], off[i], (char *)data[i])), "write() of a non-overlapping range succeeds");
